@@ -11,6 +11,14 @@ export CARGO_NET_OFFLINE=true
 for stem in "$@"; do
   prop=${stem%_*}
   feat=""; if [ "$prop" = "C20" ] || [ "$prop" = "X08" ]; then feat="--features mock-core,mock-std,mock-tokio-1,mock-futures-io-0-3,mock-embedded-hal-1"; fi
+  mf=$(python3 -c "
+import json,sys
+try:
+    f=json.load(open('/tmp/wt/out/${stem}_meta.json')).get('features','') or ''
+except Exception:
+    f=''
+print(f if f.startswith('--') else ('--features '+f if f else ''))")
+  if [ -n "$mf" ]; then feat="$mf"; fi
   cd $WT; git reset -q --hard HEAD; git clean -qfd tests
   cp /tmp/wt/out/${stem}_demo.rs tests/seeded_${stem}.rs
   # without patch
